@@ -24,7 +24,9 @@ META = {
                   "generated histories (ints, tuples, strings, mixed; ties, negatives, infinities).",
     "level_note": "Trusted: Coq kernel + vm_compute; the priority_queue translator; the correspondence harness "
                   "(generators, driver canonicalisation, interning of hashable elements as integer codes); CPython's "
-                  "heapq is modelled from Lib/heapq.py, dict/list semantics assumed.",
+                  "heapq is modelled from Lib/heapq.py, dict/list semantics assumed. UnionFind.__setitem__ (overwriting a "
+                  "stored element in place) is outside the operation set: the property is about add/union/find and "
+                  "the queries (len, in, uf[i], connected, component, roots, components, component_mapping).",
 }
 
 HEADER = """From Coq Require Import ZArith List Bool.
@@ -62,7 +64,7 @@ def make_pool(rng, kind, n):
 
 UF_OPS = [("add", 1, 10), ("union", 2, 22), ("find", 1, 8), ("connected", 2, 14), ("component", 1, 6),
           ("roots", 0, 4), ("components", 0, 4), ("mapping", 0, 3), ("len", 0, 3), ("ncomps", 0, 5),
-          ("contains", 1, 4)]
+          ("contains", 1, 4), ("getitem", 1, 6)]
 
 
 def gen_uf_history(rng, maxlen=40):
@@ -77,6 +79,10 @@ def gen_uf_history(rng, maxlen=40):
     for _ in range(L):
         nm = rng.choices(names, weights)[0]
         args = [rng.randrange(n) for _ in range(ar[nm])]
+        if nm == "getitem":
+            # raw index: in range, negative (Python lists would accept it, __getitem__ must not), == len, beyond
+            args = [rng.choice([rng.randint(0, n), rng.randint(0, n), rng.randint(-n - 1, -1), n, n + 1,
+                                len({a for o in ops if o[0] in ("add", "union") for a in o[1:]})])]
         if nm == "union" and rng.random() < 0.08:
             args[1] = args[0]  # self-union
         ops.append([nm] + args)
@@ -117,6 +123,8 @@ def obs_term(o):
         return "ONone"
     if k == "valueerror":
         return "OValueError"
+    if k == "indexerror":
+        return "OIndexError"
     if k == "nat":
         return "(ONat %d)" % o[1]
     if k == "bool":
@@ -134,7 +142,7 @@ def obs_term(o):
 
 OPC = {"add": "Add", "union": "Union", "find": "Find", "connected": "Connected", "component": "Component",
        "roots": "Roots", "components": "Components", "mapping": "Mapping", "len": "Len", "ncomps": "NComps",
-       "contains": "Contains"}
+       "contains": "Contains", "getitem": "GetItem"}
 
 
 def uf_case_term(case, obs):
@@ -187,7 +195,7 @@ def pq_case_term(ops, obs):
 # ---------------------------------------------------------------------- independent oracle (property restated)
 def oracle_uf(case, obs):
     """Naive partition semantics: returns None or a description of the first observation that violates C20."""
-    comp = {}  # code -> frozenset
+    comp = {}  # code -> frozenset (insertion-ordered: the i-th key is the i-th distinct element added)
 
     def ensure(a):
         if a not in comp:
@@ -235,6 +243,9 @@ def oracle_uf(case, obs):
             want = ["nat", len(set(comp.values()))]
         elif nm == "contains":
             want = ["bool", args[0] in comp]
+        elif nm == "getitem":
+            order = list(comp)
+            want = ["elt", order[args[0]]] if 0 <= args[0] < len(order) else ["indexerror"]
         if o != want:
             return "op %d %s: answered %s, the partition semantics says %s" % (k, op, o, want)
     return None
@@ -306,7 +317,7 @@ def classify_uf(case, msg):
     """Failure class key used to match known findings."""
     kind = case["kind"]
     op = msg.split(" ")[2] if msg.startswith("op ") else "?"
-    m = [o for o in ("component", "mapping", "components", "roots", "find", "connected", "union", "add", "len", "ncomps", "contains") if ("['%s'" % o) in msg or (" %s:" % o) in msg]
+    m = [o for o in ("component", "mapping", "components", "roots", "find", "connected", "union", "add", "len", "ncomps", "contains", "getitem") if ("['%s'" % o) in msg or (" %s:" % o) in msg]
     return "uf/%s/%s" % (m[0] if m else "?", "non-int" if kind != "int" else "int")
 
 
@@ -358,7 +369,7 @@ def run(ctx):
         ctx.count("uf len<=%d" % (10 * ((len(c["ops"]) + 9) // 10)))
         for op, ob in zip(c["ops"], o):
             ctx.count("uf op " + op[0])
-            if ob[0] in ("valueerror", "other"):
+            if ob[0] in ("valueerror", "indexerror", "other"):
                 ctx.count("uf answer " + ob[0])
         ctx.case_seen(["uf", c["elts"], c["ops"]], nontrivial=any(op[0] == "union" and op[1] != op[2] for op in c["ops"]),
                       sample={"uf_history": c["ops"][:12], "elements": c["elts"], "observed": o[:12]})
